@@ -241,6 +241,18 @@ func (u *Unit) execStmt(st *State, s ast.Stmt) flow {
 		u.eval(st, x.X)
 		return u.alive(st)
 	case *ast.AssignStmt:
+		if call := appendAssign(u, x); call != nil {
+			// x = append(s, e...) : explore "fits in place" and "reallocates" as two paths (keeps each query simple)
+			var outs []*State
+			for _, mode := range []string{"fits", "grows"} {
+				b := st.fork()
+				b.ghost["$appendMode"] = scalar(mode, "mode", nil)
+				u.execAssign(b, x)
+				delete(b.ghost, "$appendMode")
+				outs = append(outs, u.alive(b).normal...)
+			}
+			return flow{normal: outs}
+		}
 		u.execAssign(st, x)
 		return u.alive(st)
 	case *ast.IncDecStmt:
@@ -994,8 +1006,41 @@ func (u *Unit) dryRun(st *State, run func(*State) []*State) (modVars map[types.O
 	return
 }
 
+type autoInv struct {
+	obj  types.Object
+	pre  Term
+	fpre Term
+}
+
+type loopFrame struct {
+	guards   []loopGuard
+	autos    []autoInv
+	autoSyms map[Term]bool // head values of the arrays of loop-carried slice variables
+	ord      int
+}
+
+func (u *Unit) pushLoopFrame(lf *loopFrame) int {
+	r := u.root()
+	n := len(r.loopGuards)
+	r.loopGuards = append(r.loopGuards, lf.guards...)
+	return n
+}
+func (u *Unit) popLoopFrame(n int) { r := u.root(); r.loopGuards = r.loopGuards[:n] }
+
+// checkAutoInv: a slice variable carried around the loop still points at its pre-loop array or at one allocated since.
+func (u *Unit) checkAutoInv(st *State, lf *loopFrame) {
+	for _, a := range lf.autos {
+		v, ok := st.vars[a.obj]
+		if !ok || v.Kind != KSlice {
+			continue
+		}
+		u.oblige(st, "inv-keep", fmt.Sprintf("%d.auto:%s", lf.ord, a.obj.Name()), tOr(tEq(v.Arr, a.pre), tNot(isOld(v.Arr, a.fpre))), 0)
+	}
+}
+
 // havocForLoop havocs what the loop body may change; returns the havoc'd state.
-func (u *Unit) havocForLoop(st *State, run func(*State) []*State) *State {
+func (u *Unit) havocForLoop(st *State, run func(*State) []*State, ord int) (*State, *loopFrame) {
+	lf := &loopFrame{ord: ord}
 	modVars, modHeaps, allocs := u.dryRun(st, run)
 	h := st.fork()
 	mark := u.root().nfresh
@@ -1004,6 +1049,15 @@ func (u *Unit) havocForLoop(st *State, run func(*State) []*State) *State {
 		h.assume(u.typeAssume(nv))
 		u.assumeRefBelowFrontierLater(h, nv)
 		h.vars[o] = nv
+		if ov := st.vars[o]; ov.Kind == KSlice && nv.Kind == KSlice {
+			// implicit invariant (re-checked at every back edge): still the pre-loop array, or a newer one
+			h.assume(tOr(tEq(nv.Arr, ov.Arr), tNot(isOld(nv.Arr, st.frontier))))
+			lf.autos = append(lf.autos, autoInv{o, ov.Arr, st.frontier})
+			if lf.autoSyms == nil {
+				lf.autoSyms = map[Term]bool{}
+			}
+			lf.autoSyms[nv.Arr] = true
+		}
 	}
 	pre := map[string]Term{}
 	for name := range modHeaps {
@@ -1051,14 +1105,55 @@ func (u *Unit) havocForLoop(st *State, run func(*State) []*State) *State {
 					uniq = append(uniq, w)
 				}
 			}
+			sort := u.root().heapSort[name]
+			es := arrayElemSort(sort)
+			guardable := !invariant
 			if !invariant {
+				for _, w := range ws {
+					if maxSymID(w) <= mark {
+						continue
+					}
+					if strings.HasPrefix(w, "apparr!") || u.root().allocSyms[rootOfSub(w)] || lf.autoSyms[w] {
+						continue // new array, or the current array of a loop-carried slice variable (auto invariant)
+					}
+					guardable = false // a write at an old reference chosen inside the loop: nothing can be framed
+				}
+			}
+			if !invariant && !guardable {
 				if u.eng.verbose {
 					fmt.Printf("  loop havoc: heap %s fully havoc'd (writes at %v, mark %d)\n", name, ws, mark)
 				}
 				continue
 			}
-			sort := u.root().heapSort[name]
-			es := arrayElemSort(sort)
+			if !invariant {
+				// writes at references computed inside the loop: assume the frame in quantified form for everything that is
+				// old and neither an invariant target nor the pre-loop array of a slice variable the loop updates, and make
+				// every write of the real iteration prove that it stays inside that allowance (loop-frame obligations).
+				var allowed []Term
+				seenA := map[Term]bool{}
+				for _, w := range ws {
+					if maxSymID(w) <= mark && !seenA[w] {
+						seenA[w] = true
+						allowed = append(allowed, w)
+					}
+				}
+				if strings.HasPrefix(name, "E$") {
+					for _, a := range lf.autos {
+						if !seenA[a.pre] {
+							seenA[a.pre] = true
+							allowed = append(allowed, a.pre)
+						}
+					}
+				}
+				var excl []Term
+				for _, w := range allowed {
+					excl = append(excl, tNot(tEq("r!qh", w)))
+				}
+				h.assume(fmt.Sprintf("(forall ((r!qh Int)) (! (=> %s (= (select %s r!qh) (select %s r!qh))) :pattern ((select %s r!qh))))",
+					tAnd(append([]Term{isOld("r!qh", st.frontier)}, excl...)...), h.heap[name], preT, h.heap[name]))
+				lf.guards = append(lf.guards, loopGuard{heap: name, allowed: allowed, fpre: st.frontier, ord: ord})
+				continue
+			}
 			if freshWrites {
 				var excl []Term
 				for _, w := range uniq {
@@ -1075,7 +1170,7 @@ func (u *Unit) havocForLoop(st *State, run func(*State) []*State) *State {
 			h.assume(tEq(h.heap[name], t))
 		}
 	}
-	return h
+	return h, lf
 }
 
 func (u *Unit) assumeRefBelowFrontierLater(st *State, v Val) {
@@ -1130,7 +1225,14 @@ func (u *Unit) checkInvariants(st *State, lc *loopCtx, kind string, extra map[st
 			u.reject("contract error: %v", err)
 			continue
 		}
-		u.oblige(st, kind, fmt.Sprintf("%d.%d", lc.ord, i+1), t, lc.pos)
+		parts := splitGoal(t)
+		for pi, pt := range parts {
+			lbl := fmt.Sprintf("%d.%d", lc.ord, i+1)
+			if len(parts) > 1 {
+				lbl = fmt.Sprintf("%d.%d.%d", lc.ord, i+1, pi+1)
+			}
+			u.oblige(st, kind, lbl, pt, lc.pos)
+		}
 	}
 }
 
@@ -1209,7 +1311,7 @@ func (u *Unit) execFor(st *State, x *ast.ForStmt, label string) flow {
 		}
 		return res
 	}
-	h := u.havocForLoop(st, iter)
+	h, lf := u.havocForLoop(st, iter, ord)
 	u.assumeInvariants(h, lc, nil)
 	var out flow
 	// exit by condition
@@ -1224,6 +1326,7 @@ func (u *Unit) execFor(st *State, x *ast.ForStmt, label string) flow {
 	}
 	body.trace = append(body.trace, fmt.Sprintf("loop%d:iter", ord))
 	dec0, hasDec := u.decreasesVal(body, lc, nil)
+	gmark := u.pushLoopFrame(lf)
 	f := u.execBlock([]*State{body}, x.Body.List)
 	backs := append([]*State{}, f.normal...)
 	for _, j := range f.cont {
@@ -1242,11 +1345,13 @@ func (u *Unit) execFor(st *State, x *ast.ForStmt, label string) flow {
 			b = pf.normal[0]
 		}
 		u.checkInvariants(b, lc, "inv-keep", nil)
+		u.checkAutoInv(b, lf)
 		if hasDec {
 			d1, _ := u.decreasesVal(b, lc, nil)
 			u.oblige(b, "dec", fmt.Sprint(ord), tAnd(tLe("0", dec0), tLt(d1, dec0)), lc.pos)
 		}
 	}
+	u.popLoopFrame(gmark)
 	for _, j := range f.brk {
 		if j.label == "" || j.label == label {
 			out.normal = append(out.normal, j.st)
@@ -1360,7 +1465,7 @@ func (u *Unit) execRange(st *State, x *ast.RangeStmt, label string) flow {
 		}
 		return outs
 	}
-	h := u.havocForLoop(st, iter)
+	h, lf := u.havocForLoop(st, iter, ord)
 	// the counter is always havoc'd within range
 	ci := u.fresh("idx", SInt)
 	h.vars[cntObj] = intVal(ci)
@@ -1378,7 +1483,9 @@ func (u *Unit) execRange(st *State, x *ast.RangeStmt, label string) flow {
 	body.assume(tLt(ci, n))
 	body.trace = append(body.trace, fmt.Sprintf("loop%d:iter", ord))
 	bindIter(body)
+	gmark := u.pushLoopFrame(lf)
 	f := u.execBlock([]*State{body}, x.Body.List)
+	u.popLoopFrame(gmark)
 	backs := append([]*State{}, f.normal...)
 	for _, j := range f.cont {
 		if j.label == "" || j.label == label {
@@ -1390,6 +1497,7 @@ func (u *Unit) execRange(st *State, x *ast.RangeStmt, label string) flow {
 	for _, b := range backs {
 		b.vars[cntObj] = intVal(tAdd(ci, "1"))
 		u.checkInvariants(b, lc, "inv-keep", extra(b))
+		u.checkAutoInv(b, lf)
 	}
 	for _, j := range f.brk {
 		if j.label == "" || j.label == label {
@@ -1429,7 +1537,7 @@ func (u *Unit) execRangeMap(st *State, x *ast.RangeStmt, lc *loopCtx, coll Val, 
 		}
 		return outs
 	}
-	h := u.havocForLoop(st, iter)
+	h, lf := u.havocForLoop(st, iter, lc.ord)
 	u.assumeInvariants(h, lc, nil)
 	var out flow
 	exit := h.fork()
@@ -1438,7 +1546,9 @@ func (u *Unit) execRangeMap(st *State, x *ast.RangeStmt, lc *loopCtx, coll Val, 
 	body := h.fork()
 	body.trace = append(body.trace, fmt.Sprintf("loop%d:iter", lc.ord))
 	bind(body)
+	gmark := u.pushLoopFrame(lf)
 	f := u.execBlock([]*State{body}, x.Body.List)
+	u.popLoopFrame(gmark)
 	backs := append([]*State{}, f.normal...)
 	for _, j := range f.cont {
 		if j.label == "" || j.label == label {
@@ -1449,6 +1559,7 @@ func (u *Unit) execRangeMap(st *State, x *ast.RangeStmt, lc *loopCtx, coll Val, 
 	}
 	for _, b := range backs {
 		u.checkInvariants(b, lc, "inv-keep", nil)
+		u.checkAutoInv(b, lf)
 	}
 	for _, j := range f.brk {
 		if j.label == "" || j.label == label {
@@ -1592,4 +1703,24 @@ func (u *Unit) inlineBody(st *State, ft *ast.FuncType, body *ast.BlockStmt, recv
 		return res[0]
 	}
 	return Val{Kind: KTuple, T: sig.Results(), Elems: res}
+}
+
+
+// appendAssign recognises  x = append(s, e1, ..., ek)  (no ellipsis) at statement level.
+func appendAssign(u *Unit, x *ast.AssignStmt) *ast.CallExpr {
+	if len(x.Rhs) != 1 || len(x.Lhs) != 1 || (x.Tok != token.ASSIGN && x.Tok != token.DEFINE) {
+		return nil
+	}
+	call, ok := ast.Unparen(x.Rhs[0]).(*ast.CallExpr)
+	if !ok || call.Ellipsis != token.NoPos || len(call.Args) < 2 {
+		return nil
+	}
+	id, ok := ast.Unparen(call.Fun).(*ast.Ident)
+	if !ok || id.Name != "append" {
+		return nil
+	}
+	if _, isB := u.info().ObjectOf(id).(*types.Builtin); !isB {
+		return nil
+	}
+	return call
 }
